@@ -883,6 +883,12 @@ def run_rotate(key):
             letter=name,
             R=names[a],
         )
+        if a % 3 == 1:
+            # the same tensor and rotation in Fortran memory order
+            of = cx.arr("rotate", cx.call("rotate", np.asfortranarray(c(t)), np.asfortranarray(c(rs[a])), letter=name + "@F", R=names[a]), (3, 3, 3, 3), letter=name + "@F", R=names[a])
+            if of is not None:
+                ef = float(np.abs(of - ref[a]).max())
+                cx.check("rotate_law", ef <= TOL_ROT * scale, {"max_abs_err": ef}, letter=name + "@F", R=names[a])
         if whole:
             # the same whole-number tensor handed over as an int64 / float32 array
             for tag, dt in (("i64", np.int64), ("f32", np.float32)):
